@@ -122,12 +122,29 @@ def run(tier, seed):
         if r.get("early") or "blocked" in got:
             early.append({"ops": timer_tokens(ops), "impl": got, "early": r.get("early")})
     rep.sample({"timer_script": timer_tokens(scripts[0]), "outputs": model.ask("C18 timer " + timer_tokens(scripts[0]))})
+    # durations that are no whole number of milliseconds (and below one): the expiry is awaited, its delay measured
+    nearly = 0
+    for mode in (0, 1, 2):
+        us = [rng.pick([rng.range(1, 999), 1000 * rng.range(1, 25) + rng.range(1, 499), 1000 * rng.range(1, 25) + rng.range(500, 999),
+                        rng.range(1000, 30000)]) for _ in range(6 if tier == "quick" else 40)]
+        r = impl.call("timerEarly", Mode=mode, Us=us)
+        took = r.get("took") or []
+        rep.case(("early", mode, tuple(us)))
+        rep.count("timer-awaited-expiries", len(us))
+        nearly += len(us)
+        if len(took) != len(us):
+            early.append({"awaited": us, "mode": mode, "harness": r})
+        for d, t in zip(us, took):
+            if t < 0 or t < d * 1000:
+                early.append({"awaited Reset (microseconds)": d, "fired after (ns)": t,
+                              "timer": ["fresh", "re-armed after a read expiry", "re-armed while pending"][mode]})
 
     rep.obligation("K-C18a: ToUnixMicros/FromUnixMicros vs model on %d instants" % len(inst), "K", not kdis, json.dumps(kdis[:3]))
     rep.obligation("O-C18a: nearest-microsecond spec on real results (incl. sweep)", "O", not ofail and not sweep_bad and not rt_fail,
                    json.dumps((ofail + sweep_bad + rt_fail)[:3]))
     rep.obligation("K-C18b: real Timer vs model on %d scripts" % len(scripts), "K", not tdis, json.dumps(tdis[:3]))
-    rep.obligation("O-C18b: no early fire, Reset never blocks (real Timer)", "O", not early, json.dumps(early[:3]))
+    rep.obligation("O-C18b: no early fire (scripts, and %d awaited expiries of sub-millisecond / fractional durations), Reset never blocks (real Timer)" % nearly,
+                   "O", not early, json.dumps(early[:3]))
 
     failing = ofail + sweep_bad
     if failing:
